@@ -130,8 +130,11 @@ def run(c, chk):
     from .. import bufsize
     nbuf = 0
     seen = set()
+    FILE_FUNCS = {'cfg_searchpath', 'cfg_tilde_expand', 'cfg_make_fullpath', 'cfg_add_searchpath', 'cfg_parse', 'cfg_include', 'cfg_lexer_include'}
     for f in sorted(c.confuse.funcs.values(), key=lambda x: x.name):
-        if not any(True for _ in f.calls('malloc')):
+        if f.name in c.unknown_funcs or f.name not in FILE_FUNCS:
+            continue          # buffers of other code are C02's; helpers split off these functions are explored with them
+        if not any(True for _ in c.deep_calls(f, 'malloc')):
             continue
         for p in ex.explore(f):
             if p.end != 'ret':
@@ -188,6 +191,51 @@ def run(c, chk):
     elif okexp and not unknown_ok:
         chk.fail('R17.5', 'tilde-unknown-user', c.where(te), 'there is no path on which an unknown user yields a copy of the input')
     chk.floor('R17.5 expanding paths', nexp, 2)
+
+    # ---- R17.7: the user looked up is exactly the text between '~' and the rest of the name ------------
+    chk.rule('R17.7', 'the name given to getpwnam() is the input from its second character up to (not including) the rest that is appended to the home directory')
+    nuser = 0
+    for p in ex.explore(te):
+        if p.end != 'ret':
+            continue
+        gp = [e for e in p.events if e.kind == 'call' and e.name == 'getpwnam']
+        if not gp:
+            continue
+        u = gp[0].args[0]
+        src = n = None
+        ev = next((e for e in p.events if e.kind == 'call' and e.res == u), None)
+        if ev is not None and ev.name == 'strndup':
+            src, n = ev.args[0], ev.args[1]
+        else:
+            cp = [e for e in p.events if e.kind == 'call' and e.name in ('strncpy', 'memcpy', 'llvm.memcpy.p0i8.p0i8.i64') and e.args[0] == u]
+            if cp:
+                src, n = cp[0].args[1], cp[0].args[2]
+        # the rest of the name: the part of the input that is appended to the home directory
+        rest = None
+        for e in p.events:
+            if e.kind == 'call' and e.name in ('strcat', 'strcpy', 'memcpy', 'llvm.memcpy.p0i8.p0i8.i64', 'snprintf', 'strlen') and e is not gp[0]:
+                for a in e.args[1:] if e.name != 'strlen' else e.args:
+                    if a != ('p', 'filename') and a != ('idx', ('p', 'filename'), ('c', 1)) and \
+                            (sym.mentions(a, lambda v: v == ('p', 'filename')) or (a[0] == 'call' and a[1] in ('strchr', 'strpbrk'))) and a[0] in ('idx', 'call'):
+                        rest = rest or a
+        if src is None or n is None or rest is None:
+            continue
+        nuser += 1
+        want = bufsize.lin(('bin', 'sub', rest, ('p', 'filename')))
+        got = bufsize.lin(n)
+        if src != ('idx', ('p', 'filename'), ('c', 1)):
+            chk.fail('R17.7', 'tilde-user-start', c.where(gp[0].ins), 'the user name is taken from %s instead of from the character after the tilde' % sym.render(src))
+            break
+        if want is None or got is None or not got.eq(want.add(bufsize.Lin(-1))):
+            chk.fail('R17.7', 'tilde-user-length', c.where(gp[0].ins),
+                     'the user name handed to getpwnam() has %s characters, but the text between the tilde and the rest of the name (%s) has (%s) - 1: '
+                     'the separator ends up in the user name (or its last character is lost) and "~user/file" is no longer expanded'
+                     % (sym.render(n), sym.render(rest), sym.render(('bin', 'sub', rest, ('p', 'filename')))))
+            break
+    else:
+        if nuser:
+            chk.ok('R17.7', 'cfg_tilde_expand: %d lookups' % nuser, 'getpwnam(filename[1 .. rest)) with rest = the part appended to the home directory', sample=True)
+    chk.floor('R17.7 user lookups', nuser, 1)
 
     # ---- R17.6 ---------------------------------------------------------------------------------
     resolution_idiom(c, chk, ex)
